@@ -10,7 +10,7 @@
     evaluating [e] under the environment pulled back along [m] ([tr_eval]); the same for the
     renaming pass of the reader ([rename_eval]). *)
 From Coq Require Import List Lia Bool String NArith.
-From Patronus Require Import Expr ExprLemmas ExprEqb Eval EvalProofs SysClosed Btor2Parse Btor2Ser Btor2ExprFacts.
+From Patronus Require Import Expr ExprLemmas ExprEqb Eval EvalProofs SysClosed Btor2Parse Btor2Ser Btor2ExprFacts Btor2RoundTripSpec.
 Import ListNotations.
 Open Scope N_scope.
 
@@ -275,9 +275,6 @@ Definition env_pull (f : expr -> expr) (rho : env) : env :=
                                | ArraySymbol n' iw' dw' => rho_arr rho n' iw' dw'
                                | _ => fun _ => 0
                                end |}.
-
-Definition type_keeping (f : expr -> expr) : Prop :=
-  forall s, is_symbol s = true -> is_symbol (f s) = true /\ type_of (f s) = type_of s.
 
 Lemma env_pull_wf f rho : type_keeping f -> env_wf rho -> env_wf (env_pull f rho).
 Proof.
